@@ -156,6 +156,13 @@ func (l *LastVoteproofsHandler) Set(vp base.Voteproof) bool {
 	switch vp.Point().Stage() { //nolint:exhaustive //...
 	case base.StageINIT:
 		l.last.ivp = vp.(base.INITVoteproof) //nolint:forcetypeassert //...
+
+		// NOTE new init voteproof can step back in same height (suffrage
+		// confirm); accept voteproof of same or later round is outdated and
+		// should not be the last voteproof.
+		if l.last.avp != nil && l.last.avp.Point().Point.Compare(vp.Point().Point) >= 0 {
+			l.last.avp = nil
+		}
 	case base.StageACCEPT:
 		l.last.avp = vp.(base.ACCEPTVoteproof) //nolint:forcetypeassert //...
 	default:
